@@ -93,6 +93,9 @@ type Message struct {
 	Enums    []*Enum
 	Extends  []*Extend
 	ExtRange string // e.g. "100 to 199"
+	// NestedFirst renders nested messages and enums before the fields (so that synthetic map entry
+	// messages come after the declared nested messages in the descriptor).
+	NestedFirst bool
 }
 
 // Type is a field / rpc type.
@@ -435,6 +438,17 @@ func renderMessage(ix *index, w *writer, f *File, indent string, m *Message) {
 	if m.ExtRange != "" {
 		w.s(in + "extensions " + m.ExtRange + ";\n")
 	}
+	nested := func() {
+		for _, n := range m.Messages {
+			renderMessage(ix, w, f, in, n)
+		}
+		for _, e := range m.Enums {
+			renderEnum(w, in, e)
+		}
+	}
+	if m.NestedFirst {
+		nested()
+	}
 	for _, fd := range m.Fields {
 		renderField(ix, w, f, in, fd)
 	}
@@ -450,11 +464,8 @@ func renderMessage(ix *index, w *writer, f *File, indent string, m *Message) {
 		}
 		w.s(in + "}\n")
 	}
-	for _, n := range m.Messages {
-		renderMessage(ix, w, f, in, n)
-	}
-	for _, e := range m.Enums {
-		renderEnum(w, in, e)
+	if !m.NestedFirst {
+		nested()
 	}
 	for _, x := range m.Extends {
 		renderExtend(ix, w, f, in, x)
